@@ -49,28 +49,37 @@ Definition fin_st (i : nat) : nat := fst (fst (fin i)).
 Definition guided_mark (s : state) (i : nat) : option nat :=
   find (fun d => match dep_mark c s d with Some m => code m =? fin_st i | None => false end) (deps (steps c i)).
 
+(* the hidden steps tried at one visit of node i, each a function rstate -> rstate built from try/try2 *)
+Definition st_after (i : nat) (r : rstate) : rstate :=
+  match ph (nd (ms r) i) with PEnded _ => try r (WAfter i false) | _ => r end.
+Definition st_finish (i : nat) (r : rstate) : rstate :=
+  match ph (nd (ms r) i) with PPost => try r (WFinish i) | _ => r end.
+Definition st_wake (now : Z) (i : nat) (r : rstate) : rstate :=
+  match ph (nd (ms r) i) with
+  | PRetryWait => if (endt r i + ivl i - eps <=? now)%Z then try r (WRetryWake i) else r
+  | _ => r end.
+Definition st_mark (i : nat) (r : rstate) : rstate :=
+  match st (nd (ms r) i) with
+  | NNone => match guided_mark (ms r) i with Some d => try r (LMark i d) | None => r end
+  | _ => r end.
+(* no visible event will come from this node: unmet precondition / dry run / failing setup *)
+Definition st_hidden (i : nat) (r : rstate) : rstate :=
+  match st (nd (ms r) i) with
+  | NNone => if negb (pre (steps c i)) then try2 r (LCommit i) (LSkipPre i)
+             else if dry c || setup_fails c i then try2 r (LCommit i) (LLaunch i)
+             else r
+  | _ => r end.
+Definition st_setup (i : nat) (r : rstate) : rstate :=
+  match ph (nd (ms r) i) with
+  | PSetup => if dry c || setup_fails c i then try (try r (WSetupFail i)) (WTest i) else r
+  | _ => r end.
+Definition st_dry (i : nat) (r : rstate) : rstate :=
+  match ph (nd (ms r) i) with
+  | PStarting => if dry c then try r (WDryExec i) else r
+  | _ => r end.
+
 Definition pass_node (now : Z) (r : rstate) (i : nat) : rstate :=
-  let r1 := match ph (nd (ms r) i) with PEnded _ => try r (WAfter i false) | _ => r end in
-  let r2 := match ph (nd (ms r1) i) with PPost => try r1 (WFinish i) | _ => r1 end in
-  let r3 := match ph (nd (ms r2) i) with
-            | PRetryWait => if (endt r2 i + ivl i - eps <=? now)%Z then try r2 (WRetryWake i) else r2
-            | _ => r2 end in
-  let r4 := match st (nd (ms r3) i) with
-            | NNone => match guided_mark (ms r3) i with Some d => try r3 (LMark i d) | None => r3 end
-            | _ => r3 end in
-  (* no visible event will come from this node: unmet precondition / dry run / failing setup *)
-  let r5 := match st (nd (ms r4) i) with
-            | NNone => if negb (pre (steps c i)) then try2 r4 (LCommit i) (LSkipPre i)
-                       else if dry c || setup_fails c i then try2 r4 (LCommit i) (LLaunch i)
-                       else r4
-            | _ => r4 end in
-  let r6 := match ph (nd (ms r5) i) with
-            | PSetup => if dry c || setup_fails c i then try (try r5 (WSetupFail i)) (WTest i) else r5
-            | _ => r5 end in
-  let r7 := match ph (nd (ms r6) i) with
-            | PStarting => if dry c then try r6 (WDryExec i) else r6
-            | _ => r6 end in
-  r7.
+  st_finish i (st_after i (st_dry i (st_setup i (st_hidden i (st_mark i (st_wake now i (st_finish i (st_after i r)))))))).
 
 Definition pass (now : Z) (r : rstate) : rstate := fold_left (pass_node now) (seq 0 n) r.
 Fixpoint norm (fuel : nat) (now : Z) (r : rstate) : rstate :=
@@ -79,7 +88,7 @@ Fixpoint norm (fuel : nat) (now : Z) (r : rstate) : rstate :=
 Definition feed (r : rstate) (e : event) : option rstate :=
   match e with
   | EStart i t =>
-      let r0 := norm (n + 2) t r in
+      let r0 := norm (2 * n + 2) t r in
       match app r0 (LCommit i) with
       | Some r1 => match app r1 (LLaunch i) with
         | Some r2 => match app r2 (WTest i) with
@@ -114,7 +123,7 @@ Definition replay (tr : list event) (err : bool) (status : nat) : option rstate 
   match feed_all r_init tr 0 with
   | (_, Some idx) => (None, (1, idx))
   | (r, None) =>
-      let r' := norm (n + 3) big r in
+      let r' := norm (2 * n + 3) big r in
       match app r' LExit with
       | None => (None, (2, 0))
       | Some r1 =>
